@@ -241,6 +241,15 @@ def error_rendering(rc):
             model.parse(text)
         except FailedParse as e:
             errs.append((text, e))
+    # failures on every line up to 15 and around 100: the report shows the lines before it with their numbers in a gutter
+    # whose width follows the largest number (9 -> 10, 99 -> 100 change it)
+    lines_model = tatsu.compile("start: {'a' | 'b' 'c'}+ $ ;\n")
+    for k in list(range(1, 16)) + [98, 99, 100, 101, 102, 103, 104, 105]:
+        text = ''.join(('a a\n' if i % 3 else ' b c  \n') for i in range(1, k)) + 'a  x a\n' + 'a\n' * (k % 3)
+        try:
+            lines_model.parse(text)
+        except FailedParse as e:
+            errs.append((text, e))
     saved_env = {k: os.environ.get(k) for k in ('NO_COLOR', 'FORCE_COLOR')}
     saved = (sys.stdout, sys.stderr)
     n = 0
